@@ -471,3 +471,30 @@ def members_get_the_decorated_objective(ctx):
                       'a member solver is handed %s as its objective instead of the ensemble-decorated one (self._bootstrap_objective(...)): '
                       'the ensemble\'s strict ranges, penalty and constraints never reach a configured nested instance' % T.show(v)[:80], nf, c)
     ctx.need(n >= 1, 'no SetObjective call found in the closures of AbstractEnsembleSolver._Solve')
+
+
+@rule('C09.h', min_instances=3)
+def ensemble_wrappers_forward_the_settings(ctx):
+    """lattice / buckshot / sparsity hand what the caller gave to the ensemble before Solve: the limits always; a penalty, constraints and bounds (as strict ranges, with the tight / clip options) exactly on the paths where they were given"""
+    for name in ('lattice', 'buckshot', 'sparsity'):
+        f = ctx.func('mystic.ensemble:' + name)
+        r = wrapper_forwarding(ctx, f)
+        ctx.need(r['paths'] >= 1, '%s: no path reaches Solve' % name)
+        ctx.stats['paths_enumerated'] += r['paths']
+        kw = f.node.args.kwarg.arg if f.node.args.kwarg else 'kwds'
+        problems = []
+        for p, seen, lits in r['per_path']:
+            know = dict(lits)
+            for key, setter in (('penalty', 'SetPenalty'), ('constraints', 'SetConstraints')):
+                given = know.get(('cmp', 'in', ('const', key), ('name', kw)))
+                calls = seen.get(setter, [])
+                okc = any(a[:1] == [('sub', ('name', kw), ('const', key))] for _, a, k, _ in calls)
+                if given is True and not okc:
+                    problems.append('%s given but %s(%s[%r]) is not called' % (key, setter, kw, key))
+            b_given = know.get(('cmp', 'is', ('name', 'bounds'), ('const', None)))
+            if b_given is False and not seen.get('SetStrictRanges'):
+                problems.append('bounds given but SetStrictRanges is not called')
+            if not seen.get('SetEvaluationLimits'):
+                problems.append('SetEvaluationLimits is not called')
+        ctx.check(not problems, name + '#forwarding', 'limits, penalty, constraints and bounds reach the ensemble on all %d paths to Solve' % r['paths'],
+                  '%s: %s' % (name, problems[0] if problems else ''), f, f.node)
